@@ -117,8 +117,9 @@ class Decoder:
             dec = csr.Decoder(addr_width=aw, data_width=dw, alignment=al)
             subs, names, rejected = [], [], []
             pre = []
-            for k in range(r.randint(0, 5)):
-                saw = r.randint(1, max(1, aw - 1))
+            many = aw >= 6 and r.random() < 0.35          # scale: 6-16 subordinates on one decoder
+            for k in range(r.randint(6, 16) if many else r.randint(0, 5)):
+                saw = r.randint(1, max(1, aw - 1)) if not many else r.randint(1, max(1, aw - 4))
                 sb = csr.Interface(addr_width=saw, data_width=dw, path=(f"s{k}",))
                 sb.memory_map = MemoryMap(addr_width=saw, data_width=dw)
                 sc = {"aw": saw, "align_to": [], "explicit": False}
